@@ -92,6 +92,40 @@ pub fn module_problems(em: &Emitted, settings: &SettingsSpec) -> Vec<(String, St
             }
         }
     }
+    // (8) a derive of a std trait puts a bound on every field type; a generated type below such a field (also as a
+    // generic argument of a generated type: derives bound every parameter, used or not) has to derive the trait
+    // too, or rustc rejects the module with E0277 (the compile farm decides the same thing with rustc itself)
+    for (path, item) in &em.items {
+        let module = &path[..path.len() - 1];
+        let mine: BTreeSet<String> = item.derives().iter().filter_map(|d| bounding_trait(d)).collect();
+        if mine.is_empty() {
+            continue;
+        }
+        let mut mentioned: Vec<Vec<String>> = vec![];
+        let fields: Vec<&FieldAst> = match &item.kind {
+            ItemKind::Struct(f) => f.list().iter().collect(),
+            ItemKind::Enum(vs) => vs.iter().flat_map(|v| v.fields.list()).collect(),
+        };
+        for f in fields {
+            bounded_mentions(&f.ty, module, item, em, &mut mentioned);
+        }
+        mentioned.sort();
+        mentioned.dedup();
+        for m in mentioned {
+            let Some(target) = em.items.get(&m) else { continue };
+            let theirs: BTreeSet<String> = target.derives().iter().filter_map(|d| bounding_trait(d)).collect();
+            for t in mine.difference(&theirs) {
+                out.push((
+                    "derive-bound".into(),
+                    format!(
+                        "{} derives {t} and mentions {} in a field, which does not derive {t} (E0277)",
+                        path.join("::"),
+                        m.join("::")
+                    ),
+                ));
+            }
+        }
+    }
     // (6) cycles must pass through heap indirection
     if let Some(c) = inline_cycle(em, &table) {
         out.push((
@@ -100,6 +134,56 @@ pub fn module_problems(em: &Emitted, settings: &SettingsSpec) -> Vec<(String, St
         ));
     }
     out
+}
+
+/// the std traits whose derive bounds every field type and every type parameter
+fn bounding_trait(derive: &str) -> Option<String> {
+    let last = derive.rsplit("::").next().unwrap_or(derive).trim().to_string();
+    matches!(last.as_str(), "Clone" | "Debug" | "PartialEq" | "Eq" | "PartialOrd" | "Ord" | "Hash").then_some(last)
+}
+
+/// generated items on which a derived impl of the item puts a bound: everything below the field type except what
+/// sits under PhantomData, a Cow or an external type this harness does not know
+fn bounded_mentions(ty: &syn::Type, module: &[String], item: &Item, em: &Emitted, out: &mut Vec<Vec<String>>) {
+    match ty {
+        syn::Type::Paren(p) => bounded_mentions(&p.elem, module, item, em, out),
+        syn::Type::Tuple(t) => t.elems.iter().for_each(|e| bounded_mentions(e, module, item, em, out)),
+        syn::Type::Array(a) => bounded_mentions(&a.elem, module, item, em, out),
+        syn::Type::Path(p) => {
+            let segs: Vec<String> = p.path.segments.iter().map(|s| s.ident.to_string()).collect();
+            let args: Vec<&syn::Type> = match p.path.segments.last().map(|s| &s.arguments) {
+                Some(syn::PathArguments::AngleBracketed(a)) => a
+                    .args
+                    .iter()
+                    .filter_map(|g| match g {
+                        syn::GenericArgument::Type(t) => Some(t),
+                        _ => None,
+                    })
+                    .collect(),
+                _ => vec![],
+            };
+            let external = p.path.leading_colon.is_some() || segs.first().map(|s| s == "crate").unwrap_or(false);
+            if external {
+                let last = segs.last().map(|s| s.as_str()).unwrap_or("");
+                if matches!(last, "Vec" | "Option" | "Box" | "BTreeMap" | "BTreeSet" | "VecDeque" | "BinaryHeap" | "Result") {
+                    for a in args {
+                        bounded_mentions(a, module, item, em, out);
+                    }
+                }
+                return;
+            }
+            if segs.len() == 1 && item.generics.contains(&segs[0]) {
+                return;
+            }
+            if let Ok(target) = em.resolve_item(module, &segs) {
+                out.push(target.path.clone());
+                for a in args {
+                    bounded_mentions(a, module, item, em, out);
+                }
+            }
+        }
+        _ => {}
+    }
 }
 
 fn walk_type(
@@ -568,8 +652,29 @@ pub fn run(tier: &str, seed: u64) -> i32 {
                 cases.push(c);
             }
         }
+        // recursive derives: a derive asked for on the host has to reach every generated type its impl bounds, also
+        // one that is only a generic ARGUMENT (the parameter kept in a PhantomData marker, which the registry's
+        // field list leaves out)
+        let dg = crate::families::DGeneric {
+            max_fields: 1,
+            max_insts: 2,
+            include_cf3: false,
+            body_forms: crate::families::ALL_BODY_FORMS.to_vec(),
+            param_forms: crate::families::ALL_PARAM_FORMS.to_vec(),
+        };
+        let (gall, _, _) = enumerate(&dg, 2, 1_000_000);
+        for (_, gs) in &gall {
+            if !crate::checks::c05::wf5_ok(gs) {
+                continue;
+            }
+            let mut spec = SettingsSpec::faithful();
+            spec.derives_for.push(("p::h::Host".into(), vec!["Clone".into()], true));
+            let mut c = Case::new(RegSrc::Prog(gs.program()), spec, "D-generic, recursive derive on the host");
+            c.dedup = true;
+            cases.push(c);
+        }
         report.add(sweep(
-            "D-subst(substitute rules of every form x every use site) + D-generic(depth <= 2) without a compact / bits path",
+            "D-subst(substitute rules of every form x every use site) + D-generic(depth <= 2) without a compact / bits path, and with a recursive derive on the host",
             &cases,
             Duration::from_secs(if thorough { 300 } else { 120 }),
             |c| json!({"case": c.note, "reg": c.reg.describe()}),
